@@ -211,7 +211,7 @@ class Ctx:
                 e = {"TRACE_FILE": path}
                 if env:
                     e.update(env)
-                r = tlc.run_tlc(module, cfg, env=e, workers=1, timeout=3600)
+                r = tlc.run_tlc(module, cfg, env=e, workers=1, timeout=3600, heap=os.environ.get("VERIF_TRACE_HEAP", "3g"))      # up to 16 validators run side by side
                 tlc.must_be_clean(r, module + " (trace validation)")
                 if r.violated:
                     raise MachineryError("trace spec %s violated %s" % (module, r.violated))
